@@ -500,3 +500,28 @@ SPECS["C17"] = {
          "entries": {"quick": ["VerifC17_OTLPGroups"]}, "reach": {"*": ["grouped"]}, "limits": {"quick": {"timeout": "600s"}}},
     ],
 }
+
+
+SPECS["C16"] = {
+    "explanation": "SOCKET SENDER (graphite, statsdaemon): the real sender.Sender.Run / innerRun / cleanup run as a goroutine (engine's cooperative scheduler) against a scripted environment: "
+                   "every ConnFactory call and every conn.Write succeeds or fails by symbolic choice, each of 1..2 flush requests (streams with 1..2 pre-filled buffers, as Graphite hands "
+                   "them over) may be cancelled before the sender gets to it, the reconnect timer has always fired, and wherever a select has several ready cases every choice is explored "
+                   "(schedule variable); then the sender is shut down. Asserted: every request handed to the sink gets its completion callback exactly once; no error is reported when the "
+                   "transport never failed and the request was not cancelled. OTLP (HTTP): the real SendMetricsAsync / postMetrics retry loop (errgroup, real back-off against the symbolic "
+                   "clock, max-retries 0..2) against a symbolic per-attempt fault script {200, connection error, 503} for 1..2 batches: callback exactly once, an error whenever no attempt "
+                   "succeeded, none when every attempt succeeded. The flusher's WaitGroup accounting over callbacks is exercised by C01's flushData entries.",
+    "bounds": {"quick": "1..2 streams x 1..2 buffers, <= 5 connect/write operations per run (longer scripts are cut by an assumption); OTLP: <= 3 attempts, 1..2 batches", "thorough": "same"},
+    "outside": ["datadog, influxdb, newrelic, cloudwatch HTTP backends: their payload marshalling goes through jsoniter / the AWS SDK (reflection), not executable by the engine; their "
+                "exactly-once argument (goroutine per batch + collector) is the same shape as OTLP's but is NOT claimed", "statsdaemon's producer that stops early on cancel", "real scheduling"],
+    "assumptions": STUBS_COMMON + [NET_STUBS, TIME_MODEL, "time.NewTimer returns a timer that has already fired"],
+    "jobs": [
+        {"pkg": "./pkg/backends/sender", "harness": "pkg/backends/sender", "mode": "machine",
+         "entries": {"quick": ["VerifC16_1_1", "VerifC16_1_2", "VerifC16_2_1", "VerifC16_2_2", "VerifC16_Twin"]},
+         "reach": {"VerifC16_2_1": ["clean", "faulty"]},
+         "twin": {"VerifC16_Twin": True},
+         "limits": {"quick": {"timeout": "600s"}, "thorough": {"timeout": "600s"}}},
+        {"pkg": "./pkg/backends/otlp", "harness": "pkg/backends/otlp", "mode": "machine",
+         "entries": {"quick": ["VerifC16_OTLP"]}, "reach": {"*": ["clean", "all-failed"]},
+         "limits": {"quick": {"timeout": "600s"}}},
+    ],
+}
